@@ -10,6 +10,8 @@ RULES = {
     "C14.R2": "configuration rejections raise ValueError (not assert, TypeError, ...)",
     "C14.R5": "an accepted configuration is fully honoured: the tensor returned satisfies the pipeline / geometry / range rules of C01.R1, C01.R5, C02.R1, C02.R2, C03.R1, C03.R2, C03.R5 and C06.R7 (re-checked here under this id)",
     "C14.R6": "a dimension of size one is a supported shape (Linear(n, 1), Conv2d with one output channel): a quantizer that refuses an axis of size one is only reached from quantize_weight on paths that have rewritten such an axis to per-tensor",
+    "C14.R7": "the quantization entry points are functions of their arguments: no module-level state, cache or random draw is reachable from them (the purity rules C13.R3 / C13.R4 re-checked)",
+    "C14.R8": "one quantity, one formula: wherever a number of groups (or a divisibility by the group size) is computed, the dividend is the per-index element count numel // shape[axis] - a single extent only for tensors unpacked as 2-D",
     "C14.R3": "group-size post-condition: a non-None weight_group_size is only produced under in_features % group_size == 0, with in_features = weight.numel() // weight.shape[0]; the selection is repeated wherever weight_qtype is reassigned (the configuration in force is the one honoured)",
     "C14.R4": "qtypes given by name are looked up in `qtypes` for both weights and activations",
 }
@@ -228,11 +230,19 @@ def run(chk):
         c03.run(AliasedCheck(chk, {"C03.R1": "C14.R5", "C03.R2": "C14.R5", "C03.R5": "C14.R5"}))
         c06.quantizer_geometry(AliasedCheck(chk, {"C06.R7": "C14.R5"}))
         c06.scalar_scale_clause(AliasedCheck(chk, {"C06.R9": "C14.R5"}))  # a non-scalar activation scale is refused (0-dim on the per-tensor path)
+        # "returns a tensor that satisfies C01-C03 for exactly the requested configuration": the entry points are functions of their arguments -
+        # nothing they reach keeps state from one call to the next (a memo keyed by object identity serves a stale result after an in-place update)
+        from ..effects import EffectGraph
+        from . import c13
+        g_ = EffectGraph(repo)
+        c13.inference_effects(AliasedCheck(chk, {"C13.R3": "C14.R7"}), g_)
+        c13.quantization_effects(AliasedCheck(chk, {"C13.R4": "C14.R7"}), g_)
     from .c03 import grouping_condition
     grouping_condition(chk, "C14.R1")  # a valid group size is honoured by the optimizer and the quantizer alike
     from .c10 import derived_state
     derived_state(chk, rule="C14.R3")  # the selected group size follows every reassignment of the weight qtype
     size_one_axis(chk)
+    group_count_rule(chk)
     qtype_by_name(chk)
     chk.assume("parameter positions of the public quantization entry points are part of the API (names are read from the signatures)")
 
@@ -360,3 +370,87 @@ def qtype_by_name(chk):
         # the lookup happens exactly when the value is a non-None non-qtype
         ok2 = all((U(v) == f"qtypes[{par}]") == (facts_of(p).get(f"{par} is None") is False and facts_of(p).get(f"isinstance({par}, qtype)") is False) for p, v in vals)
         chk.require("C14.R4", f"{ci.mod.rel}:{init.lineno}", ok and ok2, f"QModuleMixin.__init__: `{par}` given by name is looked up in qtypes, a qtype or None is kept ({sorted(texts)})", "QModuleMixin.__init__", f"{par} by name", f"QLinear(..., {par}='qint8'): the string is stored instead of the qtype")
+
+
+_GROUP_COUNT_EXAMPLE = """
+def good(t, group_size, axis):
+    axis_numel = t.numel() // t.shape[axis]
+    return axis_numel // group_size
+
+def good2d(size, group_size):
+    out_features, in_features = size
+    return in_features // group_size
+
+def bad(t):
+    groups = 1 if t._group_size is None else t.shape[1] // t._group_size
+    return groups
+"""
+
+
+def _group_count_sites(fn):
+    """(node, numerator text, verdict) for every `N // G` / `N % G` of `fn` whose divisor is a group size.  The number of groups of one index of the
+    quantization axis is (numel // shape[axis]) // group_size: the numerator is that per-index element count (written out, a local bound to it, the
+    element count of a grouped tensor divided by its axis extent) - or a plain extent of a tensor known to be 2-D (unpacked into exactly two names)."""
+    locs = {}
+    two_d = set()
+    for a in ast.walk(fn):
+        if isinstance(a, ast.Assign) and len(a.targets) == 1:
+            t = a.targets[0]
+            if isinstance(t, ast.Name):
+                locs.setdefault(t.id, []).append(a.value)
+            elif isinstance(t, (ast.Tuple, ast.List)) and len(t.elts) == 2 and all(isinstance(e, ast.Name) for e in t.elts) and not isinstance(a.value, (ast.Tuple, ast.List)):
+                two_d.update(e.id for e in t.elts)  # `out_features, in_features = size`: a 2-D size
+
+    def per_index(e, depth=3):
+        x = U(e).replace(" ", "")
+        if isinstance(e, ast.BinOp) and isinstance(e.op, ast.FloorDiv):
+            l, r = U(e.left).replace(" ", ""), U(e.right).replace(" ", "")
+            if l.endswith(".numel()") and (r.startswith(l[:-8] + ".shape[") or r in locs or r.endswith("_dim")):
+                return True
+            if isinstance(e.left, ast.BinOp):  # grouped.numel() // axis_dim // group_size is parsed left to right: judged at the inner node
+                return False
+        if x.startswith(("math.prod(", "prod(")) and ".shape[1:]" in x:
+            return True
+        if isinstance(e, ast.Name):
+            if e.id in two_d:
+                return True
+            return depth > 0 and e.id in locs and all(per_index(v, depth - 1) for v in locs[e.id])
+        return False
+
+    out = []
+    params = [a.arg for a in fn.args.args]
+    for n in ast.walk(fn):
+        if isinstance(n, ast.BinOp) and isinstance(n.op, (ast.FloorDiv, ast.Mod)):
+            d = U(n.right)
+            if d.split(".")[-1] in ("group_size", "_group_size", "weight_group_size"):
+                if isinstance(n.left, ast.Name) and n.left.id in params and n.left.id not in locs:
+                    out.append((n, U(n.left), ("param", params.index(n.left.id))))  # judged at the call sites (a checking helper handed the count)
+                else:
+                    out.append((n, U(n.left), per_index(n.left)))
+    return out, per_index
+
+
+def group_count_rule(chk, rule="C14.R8"):
+    tree = ast.parse(_GROUP_COUNT_EXAMPLE)
+    fns = {f.name: f for f in tree.body}
+    v = {k: [ok for _, _, ok in _group_count_sites(f)[0]] for k, f in fns.items()}
+    if v != {"good": [True], "good2d": [True], "bad": [False]}:
+        raise AnalysisError(f"group-count detector misjudges its built-in examples: {v}")
+    repo = chk.repo
+    n = 0
+    for mi in repo.modules.values():
+        if not mi.rel.startswith("optimum/quanto/"):
+            continue
+        fns_ = [x for x in ast.walk(mi.tree) if isinstance(x, ast.FunctionDef)]
+        for fn in fns_:
+            for node, num, ok in _group_count_sites(fn)[0]:
+                n += 1
+                if isinstance(ok, tuple):
+                    # the dividend is a parameter: every call of the helper in its module passes the per-index count
+                    idx = ok[1]
+                    calls = [(f2, c) for f2 in fns_ for c in ast.walk(f2) if isinstance(c, ast.Call) and U(c.func).split(".")[-1] == fn.name and len(c.args) > idx]
+                    ok = bool(calls) and all(_group_count_sites(f2)[1](c.args[idx]) for f2, c in calls)
+                chk.require(rule, f"{mi.rel}:{node.lineno}", ok, f"{fn.name}: `{U(node)[:60]}` divides the per-index element count (numel // shape[axis]) by the group size", fn.name, "group count from a single extent",
+                            "a grouped conv weight (8, 128, 3, 3) with group_size 128 has 9 groups per output channel, not shape[1] // 128 = 1: one line of payload, scale and zero-point is taken per row where nine are needed - "
+                            "the result reports (4, 128, 3, 3) and holds 512 codes for 4608 elements")
+    chk.floor(rule, n, 4, "group-count expressions")
